@@ -74,7 +74,7 @@ TOLERANCES = {
              'minimum >= 1.5, unless e_0 <= 1e4*eps*max(S,T) (difference quotient '
              'exact: affine / quadratic maps)',
     'linear': '|D(a d1 + c d2) - a D(d1) - c D(d2)|_max <= 256*eps*(|a| '
-              'M1 + |c| M2), M_i = max(|D d_i|, S, TD_i); TD_i = largest '
+              'M1 + |c| M2 + M_comb), M_i = max(|D d_i|, S, TD_i); TD_i = largest '
               'directional derivative of any intermediate node along d_i '
               '(central difference of the reference evaluation): D(d) may be '
               'a cancelling combination of terms of that size, each with '
@@ -97,7 +97,9 @@ ASSUMPTIONS = [
     'complex operators are differentiated along real-ified directions '
     '(complex direction, real step): this is the documented C = R^2 sense '
     'and coincides with the complex derivative for holomorphic maps',
-    'data entries in [-2, 2]; trees whose reference value overflows or that '
+    'data entries in [-2, 2]; trees with an intermediate value above 1e3 or '
+    'non-finite (stiff maps such as sin(1e5 u): the ladder h >= 2^-30 cannot '
+    'resolve them), trees whose reference value overflows or that '
     'come within the margin of a non-differentiable set are counted trivial',
     'exempt: LinDeformFixedTempl (property text), Functional.derivative '
     '(C09), NumericalDerivative (estimate by design)',
@@ -126,6 +128,7 @@ EXHAUSTIVE = {
 }
 
 MARGIN = 0.25
+TMAX = 1e3      # bound on intermediate values inside a tree
 UFUNCS_DERIV = ['sin', 'cos', 'tan', 'sqrt', 'square', 'log', 'exp',
                 'reciprocal', 'sinh', 'cosh']
 UFUNCS_LIN1 = ['negative', 'rad2deg', 'deg2rad']
@@ -929,8 +932,9 @@ def _run_case(desc):
 
     # margin from the non-differentiable sets (all leaves, at the values
     # they receive) ---------------------------------------------------------
+    mtr = Tracer(env, margin=MARGIN)
     try:
-        fx = ex.Interp(env, margin=MARGIN).ev(root, x)
+        fx = mtr.ev(root, x)
     except ex.NearNondiff:
         return Outcome('trivial', strata=['trivial:near-nondiff'])
     except ex.RefOverflow:
@@ -938,6 +942,12 @@ def _run_case(desc):
                        notes={'overflow': 1})
     if not ex.vfinite(fx) or ex.vmaxabs(fx) > 1e6:
         return Outcome('trivial', strata=['trivial:overflow'])
+    if not all(ex.vfinite(v) for v in mtr.outputs.values()) or \
+            mtr.tmax > TMAX:
+        # an intermediate value is huge / non-finite although op(x) is not
+        # (sin(1e5 ...), 1/cosh(inf)): too stiff for the step ladder
+        return Outcome('trivial', strata=['trivial:stiff'],
+                       notes={'overflow': 1})
 
     # derivative -------------------------------------------------------------
     xe = env.element(dom, x)
@@ -1065,10 +1075,11 @@ def _run_case(desc):
         expect = ex.vadd(ex.vscale(a, y[0]), ex.vscale(c, y[1]))
         # (scale: the ladder's S as well -- D(d) may be a cancelling sum of
         # terms of that size)
-        td = [deriv_term_magnitude(env, root, x, v, eps) for v in (d1, d2)]
+        td = [deriv_term_magnitude(env, root, x, v, eps)
+              for v in (d1, d2, comb)]
         tol = 256 * eps * (abs(a) * max(ex.vmaxabs(y[0]), Smax, td[0]) +
-                           abs(c) * max(ex.vmaxabs(y[1]), Smax, td[1])) + \
-            1e-300
+                           abs(c) * max(ex.vmaxabs(y[1]), Smax, td[1]) +
+                           max(ex.vmaxabs(y[2]), td[2])) + 1e-300
         err = ex.vmaxabs(ex.vsub(y[2], expect))
         if not err <= tol:
             raise Violation('C06|deriv-nonlinear|{}|{}'.format(site, reg),
